@@ -77,10 +77,12 @@ COLUMNS = 120
 T0 = 64000
 MAXIMA = [0, 1, 3, 10, 50, 200]
 DTS = [0, 1, 4, 16, 128]            # 0, 1/64 (~10 ms), 1/16 (~50 ms), 1/4 (~200 ms), 2 s
-KINDS = ["ansi", "plain", "section", "plain_section", "mixed_plain", "mixed_ansi"]
+KINDS = ["ansi", "plain", "section", "plain_section", "mixed_plain", "mixed_ansi", "plain_capable"]
 # "mixed_*": the two outputs of the I/O differ in ANSI support; the bar draws on the ERROR output, whose kind decides
 # (mixed_plain = decorated standard output, plain error output; mixed_ansi the other way round)
-EFFECTIVE = {"mixed_plain": "plain", "mixed_ansi": "ansi"}
+# "plain_capable": a plain (ANSI-disabling) formatter on streams that COULD show escape sequences (`--no-ansi` on a
+# terminal): a plain output
+EFFECTIVE = {"mixed_plain": "plain", "mixed_ansi": "ansi", "plain_capable": "plain"}
 
 
 def _eff(kind):
@@ -158,7 +160,7 @@ def _tiny_pool(mx):
 def _exhaustive_cases(tier):
     """quick: every sequence up to length 4 over the 8-call pool; thorough: up to length 4 over the 11-call
     pool, lengths 5-6 over the 6-call core pool (both for all 12 configurations)"""
-    mixed = [(kind, 0, 3) for kind in ("mixed_plain", "mixed_ansi")]
+    mixed = [(kind, 0, 3) for kind in ("mixed_plain", "mixed_ansi", "plain_capable")]
     if tier == "quick":
         return itertools.chain(_product_cases(CONFIGS, lambda mx: _pool(mx, "quick"), range(0, 5)),
                                _product_cases(mixed, _core_pool, range(0, 4)))
@@ -182,7 +184,7 @@ def _has_tag(fmt):
 
 
 def _random_case(rng, tier):
-    kind = rng.choice(["ansi", "ansi", "plain", "plain", "section", "plain_section", "mixed_plain", "mixed_ansi"])
+    kind = rng.choice(["ansi", "ansi", "plain", "plain", "section", "plain_section", "mixed_plain", "mixed_ansi", "plain_capable"])
     mx = rng.choice(MAXIMA)
     fmt = None
     if rng.random() < 0.55:
@@ -279,9 +281,16 @@ def run_impl(case):
             from clikit.io.input_stream.string_input_stream import StringInputStream
             from clikit.io.output_stream.buffered_output_stream import BufferedOutputStream
             err_ansi = case["kind"] == "mixed_ansi"
-            io = IO(Input(StringInputStream("")),
-                    Output(BufferedOutputStream(), PlainFormatter() if err_ansi else AnsiFormatter(forced=True)),
-                    Output(BufferedOutputStream(), AnsiFormatter(forced=True) if err_ansi else PlainFormatter()))
+
+            class Capable(BufferedOutputStream):
+                def supports_ansi(self):
+                    return True
+            if case["kind"] == "plain_capable":
+                io = IO(Input(StringInputStream("")), Output(Capable(), PlainFormatter()), Output(Capable(), PlainFormatter()))
+            else:
+                io = IO(Input(StringInputStream("")),
+                        Output(BufferedOutputStream(), PlainFormatter() if err_ansi else AnsiFormatter(forced=True)),
+                        Output(BufferedOutputStream(), AnsiFormatter(forced=True) if err_ansi else PlainFormatter()))
         log = []
         stream = io.error_output.stream
         inner = stream.write
